@@ -629,6 +629,15 @@ func evalWithStrings(info *types.Info, e ast.Expr, v string, val int64) tri {
 				return triOf(strings.ContainsRune(constant.StringVal(tv.Value), rune(val)))
 			}
 		}
+		// a call of a small predicate of the module on the rune itself: isLetter(c), isDigit(c) …
+		// (one parameter, body = a single return of a boolean expression) is inlined
+		if f := callee(info, x); f != nil && len(x.Args) == 1 && render(x.Args[0]) == v {
+			if d := gDecls[f.Origin()]; d != nil && d.Body != nil && len(d.Body.List) == 1 && d.Type.Params.NumFields() == 1 && len(d.Type.Params.List[0].Names) == 1 {
+				if r, ok := d.Body.List[0].(*ast.ReturnStmt); ok && len(r.Results) == 1 {
+					return evalWithStrings(gInfos[f.Origin()], r.Results[0], d.Type.Params.List[0].Names[0].Name, val)
+				}
+			}
+		}
 		return triUnknown
 	case *ast.BinaryExpr:
 		if x.Op == token.LAND || x.Op == token.LOR {
